@@ -77,6 +77,7 @@ def close(a, b, tol):
 
 def run_history(ctx, rng, nops, script=None):
     from astropy.modeling import models
+    from astropy.modeling.bounding_box import ModelBoundingBox
     from gwcs import coordinate_frames as cf
     w = base_wcs(rng)
     hist, problems = [], []
@@ -132,12 +133,13 @@ def run_history(ctx, rng, nops, script=None):
         t = twin_of(w)
         before = state_snapshot(w)
         q = forced or rng.choice(["call", "invert", "numinv", "numinv", "in_image", "in_image", "footprint", "to_fits_sip", "get_transform", "props", "str",
-                                  "to_fits_sip_args", "footprint_args", "to_fits_args", "fix_inputs"])
+                                  "to_fits_sip_args", "footprint_args", "to_fits_args", "fix_inputs", "to_fits_tab_args"])
         # mutable arguments handed to a query (arrays, lists, dicts): the same objects are passed to the WCS and then to the twin, so a
         # query that edits them shows both as changed arguments and as a differing answer
         margs = {"crpix": np.array([400.0, 300.0]), "box": [[-0.5, 899.5], [-0.5, 699.5]], "boxarr": np.array([[10.0, 500.0], [20.0, 400.0]]),
-                 "fixed": {0: 12.0}}
-        margs0 = copy.deepcopy(margs)
+                 "fixed": {0: 12.0},
+                 "bboxlist": [ModelBoundingBox((0.0, 40.0), models.Shift(1)), (0.0, 30.0)]}
+        margs0 = dict(copy.deepcopy({k: v for k, v in margs.items() if k != "bboxlist"}), bboxlist=list(margs["bboxlist"]))
         ax, ay = xs.copy(), ys.copy()
         def both(f):
             out = []
@@ -167,6 +169,7 @@ def run_history(ctx, rng, nops, script=None):
                                                     max_inv_pix_error=None)[0],
                 "footprint_args": lambda o: o.footprint(bounding_box=margs["boxarr"]),
                 "fix_inputs": lambda o: o.fix_inputs(margs["fixed"])(ay),
+                "to_fits_tab_args": lambda o: np.asarray(o.to_fits_tab(bounding_box=margs["bboxlist"], sampling=10)[1].data["coordinates"]),
                 "props": lambda o: (o.pixel_n_dim, o.world_n_dim, o.pixel_bounds, o.array_shape, o.world_axis_physical_types,
                                     o.world_axis_units, np.asarray(o.axis_correlation_matrix).tolist(), o.available_frames),
                 "str": lambda o: (str(o), repr(o)),
@@ -176,7 +179,7 @@ def run_history(ctx, rng, nops, script=None):
             ok = False
         elif ka == "err":
             ok = True
-        elif q in ("call", "footprint", "get_transform", "footprint_args", "fix_inputs"):
+        elif q in ("call", "footprint", "get_transform", "footprint_args", "fix_inputs", "to_fits_tab_args"):
             ok = close(a, b, 0)
         elif q in ("invert", "numinv"):
             ok = close(a, b, 1e-4)
@@ -200,7 +203,11 @@ def run_history(ctx, rng, nops, script=None):
             problems.append((f"answer of `{q}` differs from a fresh twin with the same pipeline/box: {show(a)} vs {show(b)}", list(hist)))
         if not (np.array_equal(ax, xs) and np.array_equal(ay, ys)):
             problems.append((f"{q} changed the caller's arguments", list(hist)))
+        if not (len(margs["bboxlist"]) == 2 and all(a is b for a, b in zip(margs["bboxlist"], margs0["bboxlist"]))):
+            problems.append((f"{q} changed the caller's bounding_box list [ModelBoundingBox, tuple] to {margs['bboxlist']}", list(hist)))
         for k in margs:
+            if k == "bboxlist":
+                continue
             if not (type(margs[k]) is type(margs0[k]) and np.array_equal(np.asarray(list(margs[k].items()) if isinstance(margs[k], dict)
                                                                                     else margs[k]),
                                                                          np.asarray(list(margs0[k].items()) if isinstance(margs0[k], dict)
@@ -265,12 +272,31 @@ def unit_history(ctx, rng, nq):
 ALLOWED_ALIAS = '["self.forward_transform"; "self.forward_transform.inverse"; "self._to_fits_sip()"]'
 
 
+PINS = ["gwcs/wcs.py::WCS.__init__",
+        "gwcs/wcs.py::WCS._initialize_wcs",
+        "gwcs/wcs.py::WCS.__str__",
+        "gwcs/wcs.py::WCS.__repr__",
+        "gwcs/wcs.py::WCS.pipeline",
+        "gwcs/wcs.py::WCS.unit",
+        "gwcs/wcs.py::WCS.name",
+        "gwcs/wcs.py::WCS.input_frame",
+        "gwcs/wcs.py::WCS.output_frame",
+        "gwcs/wcs.py::WCS._calc_approx_inv",
+        "gwcs/wcs.py::Step.__init__",
+        "gwcs/wcs.py::Step.frame",
+        "gwcs/wcs.py::Step.transform",
+        "gwcs/wcs.py::Step.frame_name",
+        "gwcs/wcs.py::Step.__getitem__"]
+
+
 def run(ctx):
     from py2coq import gen_writes as G
     from lib.common import REPO
     ctx.trusted += ["tools/py2coq/gen_writes.py (syntactic attribute-write table, transitively closed)",
                     "tools/checks/C08.py twin differential, snapshots"]
     ctx.gate()
+    from lib import pins as _pins
+    _pins.check(ctx, PINS)      # value-level behaviour the write tables do not see (construction, printing, step records)
     ctx.coq_theorems("C08/History", ["history_independent", "queries_keep_pipeline", "run_coherent", "stale_cache_refuted"])
     try:
         src, W, R = G.gen(REPO)
@@ -307,7 +333,7 @@ def run(ctx):
         import ast as _ast
         amap = {}
         try:
-            txt = src[src.index("Definition alias_writes"):]
+            txt = src[src.index("Definition alias_writes"):src.index("Definition param_writes")]
             for m_, lst in __import__("re").findall(r'\("([^"]+)", \[([^\]]*)\]\)', txt):
                 amap[m_] = [x.strip().strip('"') for x in lst.split(";") if x.strip()]
         except ValueError:
@@ -318,6 +344,25 @@ def run(ctx):
                    f"queries mutating live objects: {bad_alias}")
         if not r3[0]:
             bad_query = (bad_query or []) + [f"{m} mutates {srcs}" for m, srcs in bad_alias]
+        # the caller's arguments: no query changes in place an object passed to it (may-alias through numpy's no-copy conversions,
+        # transitively through calls between the methods)
+        op = ("From Coq Require Import List String. Import ListNotations. Local Open Scope string_scope.\n"
+              "From GW Require Import C08.History.\nFrom WC08 Require Import Gen_writes.\n"
+              f"Theorem C08_queries_mutate_no_argument : queries_alias_clean param_writes [] {queries} = true.\n"
+              "Proof. vm_compute. reflexivity. Qed.\n")
+        r4 = ctx.dyn_build("WC08", {"ObParam": op}, [], ["ObParam"])["ObParam"]
+        pmap = {}
+        try:
+            txt = src[src.index("Definition param_writes"):]
+            for m_, lst in __import__("re").findall(r'\("([^"]+)", \[([^\]]*)\]\)', txt):
+                pmap[m_] = [x.strip().strip('"') for x in lst.split(";") if x.strip()]
+        except ValueError:
+            pass
+        bad_param = [(m, pmap[m]) for m in G.QUERIES if pmap.get(m)]
+        ctx.oblige("C08_queries_mutate_no_argument: no query changes in place an object the caller passed in (parameter table)", r4[0],
+                   f"queries mutating their arguments: {bad_param}")
+        if not r4[0]:
+            bad_query = (bad_query or []) + [f"{m} mutates its argument {srcs}" for m, srcs in bad_param]
     # ---- twin differential --------------------------------------------------------------------
     rng = ctx.rng
     nh = 60 if ctx.quick else 600
@@ -339,7 +384,7 @@ def run(ctx):
                             f"{np.asarray(a).tolist()} but a fresh twin gives {np.asarray(b).tolist()}", corpus, "C08/stale-approx-inverse"))
     # exhaustive family of short histories: [query; edit; query] for every (query, edit) pair
     QS = ["call", "invert", "numinv", "in_image", "footprint", "to_fits_sip", "get_transform", "props", "str",
-          "to_fits_sip_args", "footprint_args", "to_fits_args", "fix_inputs"]
+          "to_fits_sip_args", "footprint_args", "to_fits_args", "fix_inputs", "to_fits_tab_args"]
     ES = ["E_insert_transform", "E_set_transform", "E_insert_frame", "E_repoint", "E_bbox", "E_bbox_none"]
     for q in QS:
         for e in ES:
